@@ -72,7 +72,11 @@ VKS = ["vec", "vec-off", "nv-raise", "nv-sum",
        # mixed models: likelihood kind / prior kind differ (vectorisation is
        # detected separately per function)
        "mix:vec/nv-sum", "mix:nv-sum/vec", "mix:vec/nv-raise",
-       "mix:nv-raise/vec"]
+       "mix:nv-raise/vec",
+       # accepts arrays, but its array path differs from its single-point
+       # path in the 11th digit (a different reduction order, an interpolated
+       # array path): not vectorised in the sense of the property
+       "nv-approx", "mix:vec/nv-approx", "mix:nv-approx/vec"]
 RKS = ["scalar", "array"]
 UKS = ["default", "custom"]
 
@@ -195,6 +199,15 @@ def make_model(spec):
                     return ret(ref_lp(d, row))
                 return ret(ref_lpu(d, row, "custom"))
             red = np.sum if vk == "nv-sum" else (lambda v: v)
+            if vk == "nv-approx" and np.size(x) > 1:
+                exact_ret = ret
+
+                def ret(out):
+                    out = np.asarray(out, dtype=float)
+                    with np.errstate(invalid="ignore"):
+                        out = np.where(np.isfinite(out),
+                                       out + np.abs(out) * 2.0 ** -36, out)
+                    return exact_ret(out)
             if fn == "ll":
                 s = 0.0
                 for k, n in enumerate(self.names):
@@ -375,6 +388,47 @@ def _make_pool(case, model):
     raise HarnessError(f"unknown pool kind {kind}")
 
 
+def _second_model(case, d):
+    """A second model of the same process gets a pool of its own, set up in
+    the second documented way (a process pool whose workers are initialised
+    with that model), and evaluates a batch.  What the first model's pool
+    evaluates afterwards must still be the first model's functions."""
+    import multiprocessing as mp
+
+    from nessai.livepoint import numpy_array_to_live_points
+    from nessai.utils.multiprocessing import initialise_pool_variables
+
+    _allow_children()
+    d2 = d + 1
+    other = make_model({"d": d2, "vk": "vec", "rk": "array",
+                        "uk": "default"})
+    ctx = mp.get_context("fork")
+    pool2 = ctx.Pool(2, initializer=initialise_pool_variables,
+                     initargs=(other,))
+    try:
+        other.configure_pool(pool=pool2)
+        rows = grid_rows(5, d2, False)
+        x = numpy_array_to_live_points(
+            np.array(rows, dtype=float).reshape(len(rows), d2), other.names)
+        got = np.asarray(other.batch_evaluate_log_likelihood(x))
+        exp = [ref_ll(d2, r) for r in rows]
+        if not _same(got, exp):
+            raise Violation(
+                "values:batch_evaluate_log_likelihood:second-model",
+                f"second model (own process pool): {_first_diff(got, exp)}",
+                case)
+    except Violation:
+        pool2.terminate()
+        pool2.join()
+        raise
+    except Exception as e:  # noqa: BLE001
+        pool2.terminate()
+        pool2.join()
+        raise Violation(
+            f"{type(e).__name__}:second-model", f"{e!r}", case)
+    return other, pool2
+
+
 def _allow_children():
     """Shards are daemonic pool workers of the runner; real-pool cases need
     children, and nessai's own Pool must use fork."""
@@ -399,6 +453,7 @@ def execute(case, on_call=None, handler=None):
     spec = case["model"]
     d = spec["d"]
     _reset_globals(case.get("seed", 0))
+    _LAST_ARRAY.clear()
     model = make_model(spec)
     kind = case["pool"]["kind"]
     real = kind.startswith("real")
@@ -407,6 +462,7 @@ def execute(case, on_call=None, handler=None):
         model.likelihood_chunksize = cs
     model.parallelise_prior = bool(case.get("pp"))
     pool = None
+    second = None
     try:
         try:
             pool, n_pool = _make_pool(case, model)
@@ -433,6 +489,8 @@ def execute(case, on_call=None, handler=None):
                 raise Violation(
                     f"{type(e).__name__}:vectorised-probe", f"{e!r}", case
                 )
+        if case.get("second_model"):
+            second = _second_model(case, d)
         probed = None
         for ci, call in enumerate(case["calls"]):
             try:
@@ -453,7 +511,16 @@ def execute(case, on_call=None, handler=None):
             if pool is not None and real:
                 pool.terminate()
                 pool.join()
+            if second is not None:
+                try:
+                    second[0].close_pool()
+                finally:
+                    second[1].terminate()
+                    second[1].join()
             _reset_globals(0)
+
+
+_LAST_ARRAY = {}
 
 
 def _one_call(case, ci, call, model, d, spec, real, cs, probed, to_lp,
@@ -468,6 +535,15 @@ def _one_call(case, ci, call, model, d, spec, real, cs, probed, to_lp,
         x = empty(0, names=model.names)
     if x.shape != (n,):
         raise HarnessError("input construction failed")
+    prev = _LAST_ARRAY.get(id(model))
+    if call.get("same_array_as_previous") and prev is not None and \
+            prev.shape == x.shape:
+        # refill the array object of the previous call in place
+        for name in model.names:
+            prev[name][:] = x[name]
+        x = prev
+    _LAST_ARRAY.clear()
+    _LAST_ARRAY[id(model)] = x
     # reference
     if fn == "lpu":
         phys = rows
@@ -587,6 +663,7 @@ def _one_call(case, ci, call, model, d, spec, real, cs, probed, to_lp,
     return dict(
         fn=fn, unit=unit, n=n, exp=exp, rows=rows, lazy=lazy, vec=vec,
         pooled=pooled, ncalls=len(log),
+        same_array=bool(call.get("same_array_as_previous")),
     )
 
 
@@ -612,6 +689,8 @@ def _record(stats, case, info):
                 cl.append("n<procs")
     if fn == "lpu":
         cl.append("uk:" + case["model"]["uk"])
+    if info.get("same_array"):
+        cl.append("array-refilled-in-place")
     if n == 0:
         cl.append("empty-batch")
     elif n == 1:
@@ -780,6 +859,14 @@ def hyp_cases(draw, big):
             call["void"] = draw(st.booleans())
         calls.append(call)
         nmax = max(nmax, n)
+        if fn in ("ll", "lp") and n >= 1 and draw(st.integers(0, 2)) == 0:
+            # a caller that refills one work array in place: the next call
+            # gets the same array object with other contents
+            fn2 = draw(st.sampled_from(["ll", "lp"]))
+            rows2 = [list(r) for r in rows[1:] + rows[:1]]
+            rows2[0] = list(draw(st.lists(vals, min_size=d, max_size=d)))
+            calls.append({"fn": fn2, "unit": unit, "rows": rows2,
+                          "same_array_as_previous": True})
     cs = draw(
         st.one_of(
             st.none(),
@@ -841,6 +928,32 @@ def real_cases(kind, procs, full):
                 "seed": idx,
                 "calls": calls,
             })
+    return out
+
+
+def two_model_cases():
+    """First model: in-process (fake) pool after initialise_pool_variables;
+    a second model with its own process pool is configured in between."""
+    out = []
+    idx = 0
+    d = 3
+    for vk, rk, procs in itertools.product(
+            ("vec", "nv-sum", "nv-raise", "vec-off"), RKS, (1, 3)):
+        idx += 1
+        calls = []
+        for n in (1, 2, 5, 12):
+            calls.append({"fn": "ll", "unit": False,
+                          "rows": grid_rows(n, d, False)})
+            calls.append({"fn": "lp", "unit": False,
+                          "rows": grid_rows(n, d, False)})
+        out.append({
+            "model": {"d": d, "vk": vk, "rk": rk, "uk": "default"},
+            "pool": {"kind": "fake", "procs": procs, "order": "fwd",
+                     "n_pool": None},
+            "pp": True, "chunksize": None if idx % 2 else 3,
+            "pre_detect": idx % 2 == 0, "configure": True, "seed": idx,
+            "second_model": True, "calls": calls,
+        })
     return out
 
 
@@ -941,6 +1054,21 @@ def shard(kind, seed, known=(), **kw):
             )
         finally:
             signal.alarm(0)
+    elif kind == "two-models":
+        signal.signal(signal.SIGALRM, _alarm)
+        signal.alarm(kw.get("timeout", 1800))
+        try:
+            for case in two_model_cases():
+                try:
+                    _run_case(case, stats, ctx, out)
+                    stats.classes["two-models-in-one-process"] += 1
+                except Violation as v:
+                    out.add(v)
+                    break
+        except _Timeout:
+            raise HarnessError("two-model group hung")
+        finally:
+            signal.alarm(0)
     elif kind == "anticipated":
         for case in ANTICIPATED:
             try:
@@ -963,6 +1091,7 @@ def run(ctx):
         for j, pk in enumerate(REAL_KINDS)
         for k in (1, 2, 3, 4)
     ]
+    kws += [dict(kind="two-models", seed=ctx.seed * 1000 + 300)]
     kws += [dict(kind="anticipated", seed=ctx.seed)]
     kws += [
         dict(kind="grid", seed=ctx.seed * 1000 + i, part=i, parts=parts,
@@ -997,7 +1126,7 @@ def health(ctx, stats):
         "pool:real-nessai": 50, "pool:real-user-global": 50,
         "pool:real-user-init": 50,
         "vk:vec": 200, "vk:vec-off": 200, "vk:nv-raise": 200,
-        "vk:nv-sum": 200, "rk:scalar": 200, "rk:array": 200,
+        "vk:nv-sum": 200, "vk:nv-approx": 200, "rk:scalar": 200, "rk:array": 200,
         "mode:unit": 200, "mode:plain": 200,
         "vectorised-path": 200, "pointwise-path": 200,
         "empty-batch": 50, "single-point": 50, "n<procs": 50,
@@ -1006,6 +1135,7 @@ def health(ctx, stats):
         "lazy-probe": 50, "fn:ll": 200, "fn:lp": 200, "fn:lpu": 100,
         "fn:ell": 20, "uk:default": 50, "uk:custom": 50, "has--inf": 50,
         "pooled-call": 200, "all-values-distinct": 200,
+        "array-refilled-in-place": 100,
     }
     return [
         f"class {c} has only {stats.classes.get(c, 0)} cases (< {m})"
